@@ -20,9 +20,13 @@ fn heap_pad(n: u8, seed: u64) -> Vec<Vec<u8>> {
 
 /// Serial build, fresh OS thread, given entropy.
 pub fn run_ser(env: &Env, input: &[u8], cfg: &CfgBits, ops: &[Op], ambient: &Ambient, run_tag: u64) -> Ran {
+    run_ser_stack(env, input, cfg, ops, ambient, run_tag, 16 << 20)
+}
+
+pub fn run_ser_stack(env: &Env, input: &[u8], cfg: &CfgBits, ops: &[Op], ambient: &Ambient, run_tag: u64, stack: usize) -> Ran {
     let (input, cfg, ops, amb) = (input.to_vec(), cfg.clone(), ops.to_vec(), ambient.clone());
     let (unrelated, scratch) = (env.unrelated.clone(), env.scratch.clone());
-    let r = simrt::run_plain(Some(ambient.entropy), 16 << 20, move || {
+    let r = simrt::run_plain(Some(ambient.entropy), stack, move || {
         let _pad = heap_pad(amb.heap_pad, amb.entropy);
         let ctx = crate::ser::Ctx { unrelated: &unrelated, scratch: &scratch, run_tag };
         crate::ser::run_history(&input, &cfg, &ops, amb.arena_burn, &ctx)
